@@ -483,6 +483,96 @@ def run_relay(seq):
 RELAY_OPS = ['pubA', 'pubB', 'A>B', 'B>A']
 
 
+RESTART_KINDS = ('same-loop-settled', 'same-loop-immediately', 'second-loop', 'second-loop-twice')
+RESTART_PRE = ((), ('pub',), ('recv',), ('pub', 'recv'), ('recv-outdated',))
+
+
+def run_restart(kind, pre):
+    """an instance is stopped and started again (in the same run, or when the application is run a second time on a new event loop);
+    afterwards a publication must still be announced promptly, once, with the full vector"""
+    viol = []
+    w = World()
+    closed = False
+    base = enc.Name.from_str(BASE)
+
+    def sync_vectors(wires):
+        return [v for v in (w.decode_sync(x) for x in wires) if v is not None]
+    try:
+        for op in pre:
+            if op == 'pub':
+                w.inst.new_data()
+            elif op == 'recv':
+                w.inst.sync_handler(base + [vec_component({'p': 2}), ts.tlv(2, b'\x00' * 32)], None, lambda d: True, {})
+            else:
+                # an outdated vector: the instance is stopped while in a suppression period
+                w.inst.new_data()
+                w.loop.drain()
+                w.inst.sync_handler(base + [vec_component({'s': 0, 'p': 1}), ts.tlv(2, b'\x00' * 32)], None, lambda d: True, {})
+            w.loop.drain()
+        rounds = 2 if kind == 'second-loop-twice' else 1
+        for _ in range(rounds):
+            if kind.startswith('second-loop'):
+                inst = w.inst
+                w.inst.stop()
+                w.app.shutdown()
+                w.loop.settle(200)
+                w.env.__exit__(None, None, None)
+                w.loop.__exit__(None, None, None)
+                # the application is run a second time
+                w.loop = VLoop()
+                w.loop.enter()
+                w.env = owned_env(w.loop)
+                w.env.__enter__()
+                mc.CUR['randbits'] = w.jit.randbits
+                w.face = HFace()
+                w.app = FRONTENDS['v2'].make_app(w.face)
+                w.loop.create_task(w.app.main_loop())
+                w.loop.drain()
+                inst.start(w.app)
+                w.loop.drain()
+                w.nsent = len(w.face.sent)
+            else:
+                w.inst.stop()
+                if kind == 'same-loop-settled':
+                    w.loop.drain()
+                w.inst.start(w.app)
+                w.loop.drain()
+            w.new_interests()
+        seq0 = w.inst.self_seq
+        got = w.inst.new_data()
+        w.loop.drain()
+        vecs = sync_vectors(w.new_interests())
+        want = nz(w.local())
+        if got != seq0 + 1:
+            viol.append((f'C18|restart|{kind}|publish-seq', f'publication after the restart got sequence number {got}, the one before was {seq0}'))
+        if len(vecs) != 1:
+            viol.append((f'C18|restart|{kind}|publish-emits={len(vecs)}', f'a publication after stop() / start() emitted {len(vecs)} sync Interests instead of one '
+                                                                         f'(before the restart: {list(pre)})'))
+        elif nz(vecs[0]) != want:
+            viol.append((f'C18|restart|{kind}|publish-vector', f'sync Interest after the restart carries {vecs[0]}, local vector is {want}'))
+        # the periodic timer still runs, once
+        nxt = w.loop.next_timer_us()
+        if nxt is None:
+            viol.append((f'C18|restart|{kind}|no-timer', 'no sync timer is pending after the restart'))
+        else:
+            w.loop.advance_to_us(nxt)
+            w.loop.drain()
+            vecs = sync_vectors(w.new_interests())
+            if len(vecs) > 1:
+                viol.append((f'C18|restart|{kind}|timer-emits={len(vecs)}', f'one timer expiry after stop() / start() emitted {len(vecs)} sync Interests'))
+            for v in vecs:
+                if nz(v) != nz(w.local()):
+                    viol.append((f'C18|restart|{kind}|timer-vector', f'sync Interest carries {v}, local vector is {w.local()}'))
+        for f in w.failures():
+            viol.append((f"C18|restart|{kind}|task-error|{f['exception']}@{f['where']}", f'{f} (before the restart: {list(pre)})'))
+    except Exception as e:  # noqa
+        from mc.vloop import tb_where
+        viol.append((f'C18|restart|{kind}|raises:{type(e).__name__}@{tb_where(e)}', f'{e!r} (before the restart: {list(pre)})'))
+    finally:
+        w.close()
+    return viol
+
+
 def plan(tier, seed):
     maxseq = 'small' if tier == 'quick' else 2
     depth = 4
@@ -492,6 +582,7 @@ def plan(tier, seed):
     units += [{'kind': 'bfs', 'first': i, 'depth': 3, 'maxseq': maxseq, 'variant': 'cbpub'} for i in range(len(ops))]
     rd = 5 if tier == 'quick' else 7
     units += [{'kind': 'relay', 'first': f, 'depth': rd} for f in RELAY_OPS]
+    units.append({'kind': 'restart'})
     return {
         'units': units,
         'rule': 'state = history of operations replayed on a fresh SvsInst; BFS with deduplication on (local vector, aggregate, mode, own '
@@ -530,6 +621,18 @@ def unit(arg):
             return len(hist) < 3 or (op[0] != 'pub+recv' and not any(h[0] == 'pub+recv' for h in hist))
         res = explore_histories(WORLDS[arg.get('variant', 'plain')], ops, arg['depth'], [(first,)], on_t, expand_filter=allow)
         acc.notes['bfs_states'] += res['states']
+    elif arg['kind'] == 'restart':
+        for kind, pre in itertools.product(RESTART_KINDS, RESTART_PRE):
+            v = run_restart(kind, pre)
+            acc.evaluations += 1
+            acc.transitions += len(pre) + 3
+            acc.state(hash((kind, pre)))
+            acc.nontrivial += 1
+            acc.outcome(f"restart|{kind}|{'ok' if not v else 'viol'}")
+            acc.observe([kind, pre, [x[0] for x in v]])
+            for sig, what in v:
+                acc.violation(sig, what, {'kind': 'restart', 'what': kind, 'pre': list(pre)})
+        acc.sample({'restart_kinds': list(RESTART_KINDS), 'before_the_restart': [list(p) for p in RESTART_PRE]})
     else:
         for tail in itertools.product(RELAY_OPS, repeat=arg['depth'] - 1):
             seq = [arg['first']] + list(tail)
@@ -555,6 +658,8 @@ def _op_from_json(o):
 def replay(case):
     if case['kind'] == 'relay':
         return [{'sig': s, 'what': w} for s, w in run_relay(case['seq'])]
+    if case['kind'] == 'restart':
+        return [{'sig': s, 'what': w} for s, w in run_restart(case['what'], tuple(case['pre']))]
     hist = [_op_from_json(o) for o in case['hist']]
     w = WORLDS[case.get('variant', 'plain')]()
     out = []
